@@ -33,6 +33,19 @@ let bf_new (k : z list) (s : z list) : int option =
 let bf_expand (k : z list) (c : int) : int = int_of_string (call ["bfexpand"; hexout k; string_of_int c])
 let bf_encrypt (c : int) (b : z list) : z list = hexarg (call ["bfencrypt"; string_of_int c; hexout b])
 
+let blake2b (n : z) (x : z list) : z list = hexarg (call ["blake2b"; string_of_int (int_of_z n); hexout x])
+(* 64-bit words as 16 hex digits *)
+let rec z_of_hex64 (s : string) : z =
+  (* two 32-bit halves to stay inside OCaml's int *)
+  let hi = int_of_string ("0x" ^ String.sub s 0 8) and lo = int_of_string ("0x" ^ String.sub s 8 8) in
+  Kdf.Z.add (Kdf.Z.mul (z_of_int hi) (z_of_int 4294967296)) (z_of_int lo)
+let hex64_of_z (v : z) : string =
+  let hi = int_of_z (Kdf.Z.div v (z_of_int 4294967296)) and lo = int_of_z (Kdf.Z.modulo v (z_of_int 4294967296)) in
+  Printf.sprintf "%08x%08x" hi lo
+let words_of_hex (s : string) : z list = List.init (String.length s / 16) (fun i -> z_of_hex64 (String.sub s (16 * i) 16))
+let hex_of_words (l : z list) : string = String.concat "" (List.map hex64_of_z l)
+let zi s = z_of_int (int_of_string s)
+
 let result = function Some l -> print_string ("RESULT " ^ hexout l ^ "\n") | None -> print_string "RESULT NONE\n"
 
 let () =
@@ -53,6 +66,12 @@ let () =
        | ["bcrypt_spec"; k; s; c] -> result (x_bcrypt_spec bf_new bf_expand bf_encrypt (hexarg k) (hexarg s) (z_of_int (int_of_string c)))
        | ["des"; pw; salt] -> result (Some (x_des (hexarg pw) (hexarg salt)))
        | ["desext"; pw; salt; r] -> result (Some (x_desext (hexarg pw) (hexarg salt) (z_of_int (int_of_string r))))
+       | ["argon2"; mode; ver; pw; salt; t; m; p; kl] ->
+         result (Some (x_argon2 blake2b (zi mode) (zi ver) (hexarg pw) (hexarg salt) (zi t) (zi m) (zi p) (zi kl)))
+       | ["argon2block"; o; a; b; x] ->
+         print_string ("RESULT " ^ hex_of_words (x_argon2_block (words_of_hex o) (words_of_hex a) (words_of_hex b) (x = "1")) ^ "\n")
+       | ["argon2index"; rand; lanes; segs; thr; n; sl; lane; idx] ->
+         print_string ("RESULT " ^ string_of_int (int_of_z (x_argon2_index (z_of_hex64 rand) (zi lanes) (zi segs) (zi thr) (zi n) (zi sl) (zi lane) (zi idx))) ^ "\n")
        | _ -> print_string "RESULT BADREQUEST\n");
       flush stdout
     done
